@@ -114,18 +114,38 @@ FN = {"any": "FAny", "max": "FMax", "min": "FMin", "count": "FCount", "toFloat64
       "groupUniqArray": "FGroupUniqArray", "argMin": "FArgMin", "lower": "FLower", "hex": "FHex", "arrayMap": "FArrayMap", "uniqExact": "FUniqExact"}
 BINOP = {"%": "BMod", "+": "BAdd", "-": "BSub", "/": "BDiv"}
 TOK = re.compile(r"\s*(?:(?P<id>[A-Za-z_][A-Za-z0-9_.]*)|(?P<num>[0-9]+(?:\.[0-9]+)?)|(?P<str>'[^'\\]*')|(?P<arrow>->)|(?P<p>[(),%+\-/]))")
+# the same with escaped string literals (StringVal.String: backslash escapes): only for the text of objects the model does not know
+TOK_ESC = re.compile(r"\s*(?:(?P<id>[A-Za-z_][A-Za-z0-9_.]*)|(?P<num>[0-9]+(?:\.[0-9]+)?)|(?P<str>'(?:[^'\\]|\\.)*')|(?P<arrow>->)|(?P<p>[(),%+\-/]))")
+UNESC = {"\\": "\\", "0": "\0", "n": "\n", "r": "\r", "b": "\b", "t": "\t", "'": "'"}
+
+
+def sql_unescape(body):
+    out, i = [], 0
+    while i < len(body):
+        if body[i] == "\\" and i + 1 < len(body):
+            if body[i + 1] == "x" and body[i + 2:i + 4] == "1a":
+                out.append("\x1a")
+                i += 4
+                continue
+            out.append(UNESC.get(body[i + 1], body[i + 1]))
+            i += 2
+        else:
+            out.append(body[i])
+            i += 1
+    return "".join(out)
 
 
 class RawParse(Exception):
     pass
 
 
-def parse_raw(s):
-    """-> (coq term, rendering) ; raises RawParse"""
+def parse_raw(s, strict=True):
+    """-> (coq term, rendering) ; raises RawParse.  strict=False: the text of an object the model does not know -- string literals
+    are StringVal texts (unescaped into StrV), the rendering need only agree up to blanks"""
     toks = []
     pos = 0
     while pos < len(s):
-        m = TOK.match(s, pos)
+        m = (TOK if strict else TOK_ESC).match(s, pos)
         if not m or m.end() == pos:
             raise RawParse(s)
         pos = m.end()
@@ -167,6 +187,8 @@ def parse_raw(s):
             return "(NumLit %s)" % cs(v), v
         if k == "str":
             take()
+            if not strict:
+                return "(StrV %s)" % cs(sql_unescape(v[1:-1]).encode("latin1", "replace")), v
             return "(RawStr %s)" % cs(v[1:-1]), v
         if k == "id":
             take()
@@ -206,7 +228,7 @@ def parse_raw(s):
         return c, r
 
     c, r = expr()
-    if i[0] != len(toks) or r != s:
+    if i[0] != len(toks) or (r != s if strict else r.replace(" ", "") != s.replace(" ", "")):
         raise RawParse(s)
     return c
 
@@ -287,6 +309,15 @@ def conv_tree(t, stats=None):
             withs, "true" if t["distinct"] else "false", coq_list([conv_tree(x, stats) for x in t["cols"]]), o(t["from"]),
             coq_list(joins), o(t["prewhere"]), o(t["where"]), o(t["having"]),
             coq_list([conv_tree(x, stats) for x in t["groupby"]]), coq_list([conv_tree(x, stats) for x in t["orderby"]]), o(t["limit"]))
+    if k == "unknown" and t.get("text") is not None:
+        # an object the model has no constructor for: read its printed text as a generic call f(a, b) so that the evaluator can still run the
+        # statement (it knows a few more ClickHouse functions than the planners use today, e.g. like); reported by its own obligation
+        if stats is not None:
+            stats.setdefault("unknown_objects", set()).add(t.get("type"))
+        try:
+            return parse_raw(unhex(t["text"]).decode("latin1"), strict=False)
+        except RawParse:
+            pass
     raise Untranslatable("object of kind %s (%s)" % (k, t.get("type")))
 
 
@@ -407,6 +438,13 @@ def gen_db(c, rnd):
         if v["s"] is not None:
             if op in ("=~", "!~"):
                 pool += ["v1", "vv", "abc", "7", "a", "b", "xay", ""]
+                if v["unq"] is not None:
+                    pat = unhex(v["unq"]).decode("utf8", "replace")
+                    if pat and not re.search(r"[\\.+*?()|\[\]{}^$]", pat):
+                        # a plain substring pattern: the value itself, values that contain it, and near misses that differ exactly where a
+                        # LIKE wildcard (_ one byte, % any run) would be lenient
+                        pool += [pat, "x" + pat + "y", pat.replace("_", "-"), pat.replace("_", "X"), pat.replace("%", "0"), pat.replace("%", ""),
+                                 pat.replace("%", "abc") + "z", pat[:-1]]
             elif v["unq"] is not None:
                 pool.append(unhex(v["unq"]).decode("utf8", "replace"))
         elif v["f"]:
@@ -600,7 +638,15 @@ def run_text(ck):
             usable.append(c)
         except (Untranslatable, ValueError, KeyError) as ex:
             bad_dump.append((c["id"], str(ex)))
-    ck.obligation("every SQL object the planners built is one the model knows (dump translated)", not bad_dump, str(bad_dump[:5]))
+    unk_stats = {}
+    for c in usable:
+        try:
+            case_to_coq(c, unk_stats)
+        except (Untranslatable, ValueError, KeyError):
+            pass
+    unk = sorted(unk_stats.get("unknown_objects", []))
+    ck.obligation("every SQL object the planners built is one the model knows (dump translated)", not bad_dump and not unk,
+                  str(bad_dump[:5]) + (" object kinds without a constructor, read from their printed text: %s" % unk if unk else ""))
     # the corpus and a sample travel with their text and object tree; the bulk with the fingerprint of the text only
     nfull = ck.n(40, 400)
     fullids = set(c["id"] for c in usable if c["id"] >= 1000000) | set(c["id"] for c in usable[:nfull])
@@ -655,7 +701,8 @@ LOOP_HEADER = ("From Coq Require Import List ZArith NArith Bool.\n"
                "Import ListNotations.\n")
 LOOP_CODES = {1: "the portion filter (Max, I) of a statement differs from the model's", 2: "the cached ids of a statement are not the winners so far",
               3: "the lower window bound of a statement differs from next_from of the model", 5: "the answer of Process is not the last statement's answer",
-              6: "the answer of Process is not a top-`limit` selection of the matching traces of the window"}
+              6: "the answer of Process is not a top-`limit` selection of the matching traces of the window",
+              8: "the loop sent another number of statements than there are portions"}
 
 
 def loop_case_to_coq(c):
